@@ -23,7 +23,8 @@ CHECKS = {
  "C03": dict(engine="subset enumeration + independent codec", cat="exploration", ref="DESIGN.md 4 C03",
    technique="exhaustive subset enumeration of relabelled block types, output parsed by an independent header codec",
    text="For every corpus file with a size table every non-empty subset of its block type names (all 2^T-1 up to T=10) is relabelled unknown by an independent header codec; after Load+Save "
-        "(raw and default) the independent parser checks count, order, type names, sizes, payload bytes of unknown blocks and that every input string index still denotes the same string.",
+        "(raw and default, of the loaded model and of a copy of it) the independent parser checks count, order, type names, sizes, payload bytes of unknown blocks and that every input "
+        "string index still denotes the same string; every corpus entry also runs with a string table that holds one text twice.",
    note="Files without block sizes cannot carry unknown blocks (Load rejects them) and are outside the property; quick uses singletons for files with more than 8 types."),
  "C04": dict(engine="graph grammar + block permutation codec", cat="exploration", ref="DESIGN.md 4 C04",
    technique="exhaustive enumeration of small scene graphs x block orders x sort operations against an identity-graph permutation model",
@@ -59,27 +60,32 @@ CHECKS = {
  "C09": dict(engine="E2 histories on built shapes", cat="model_checking", ref="DESIGN.md 4 C09",
    technique="exhaustive enumeration of vertex-deletion histories (all subsets, depth 2) against an array/triangle reference model",
    text="Every non-empty vertex subset, followed by every subset of the remainder, on small meshes instantiated as every constructible geometry kind (69 configurations) and on every shape "
-        "of the sample files; compared bit for bit with a parallel-array reference model, validity of every index table, save+reload.",
+        "of the sample files; compared bit for bit with a parallel-array reference model (per-vertex attributes, NiSkinData weights, each vertex's partition rows), validity of every "
+        "index table, save+reload; skinned shapes also with partitions that keep only bone indices or only weights.",
    note="V <= 5 (quick) / 6 (thorough); sample-file shapes use prefixes, suffixes, singletons and the full set."),
  "C10": dict(engine="E2 histories on skinned shapes", cat="model_checking", ref="DESIGN.md 4 C10",
    technique="exhaustive enumeration of partition operation histories (all triangle assignments) checked against cover/bone-limit/weight invariants",
    text="All histories up to depth 2 / 3 over UpdateSkinPartitions, Get/SetShapePartitions (every assignment in {-1,0,1,2}^T), SetDefaultPartition, DeletePartitions (every subset), "
-        "RemoveEmptyPartitions, Save+Load on skinned meshes in OB/FO3/SK/SSE incl. 20- and 84-bone meshes that cross the bone limits.",
+        "RemoveEmptyPartitions, Save+Load on skinned meshes in OB/FO3/SK/SSE incl. 20- and 84-bone meshes that cross the bone limits; after every rebuild each partition row must carry "
+        "the four largest NiSkinData weights of its vertex on the right bones and every triangle must keep its body part.",
    note="At most one operation of a history ranges over the full SetShapePartitions alphabet; vertex-map facts are demanded only once a partition is prepared."),
  "C11": dict(engine="scenario enumeration", cat="exploration", ref="DESIGN.md 4 C11",
    technique="exhaustive enumeration of copy kind x edit history (<= 2) x destruction order scenarios with twin-object byte oracle under ASan",
    text="Every sample file and API-built model x {copy-construct, assign over empty, assign over loaded} x every edit history up to length 1 / 2 (incl. DeleteBlock of every index) applied "
-        "to one side x both destruction orders; the copy must save to a twin's bytes, the untouched side's bytes and snapshot must not change; ASan/UBSan catch dangling caches.",
+        "to one side x both destruction orders; the copy must save to a twin's bytes, the untouched side's bytes and snapshot must not change; ASan/UBSan catch dangling caches. Models "
+        "with opaque (unknown-type) blocks are part of the corpus; an E1 rider checks clone/copy byte equality for every synthesised instance of all 304 block types.",
    note="Never saves the same object twice inside one comparison (twins); length-2 histories are bounded on models above 24 blocks."),
  "C12": dict(engine="feature product", cat="exploration", ref="DESIGN.md 4 C12",
    technique="exhaustive enumeration of a model feature product x option sets, per-shape comparison before/after conversion",
    text="Complete product of model features (skin variants, strips/segments/dynamic, colours, model-space normals, name clashes, shader variants, meshes) x 8 / 32 option sets x both "
-        "directions and there-and-back, plus the LE/SE sample files; positions, triangle sets, UVs, colours, bones, weights per source, names, reload and partition invariants.",
+        "directions and there-and-back, plus the LE/SE sample files; positions, triangle sets, UVs, colours, bones, weights per source, names, reload and partition invariants "
+        "(incl. every rebuilt partition row against NiSkinData; an 85-bone mesh forces a bone-limit split).",
    note="headParts only on shapes eligible as head parts (documented misuse otherwise); inputs whose two weight sources disagree are checked per surviving source."),
  "C13": dict(engine="small-scope enumeration", cat="exploration", ref="DESIGN.md 4 C13",
    technique="exhaustive small-scope enumeration of meshes x versions x setter/getter pairs",
    text="All small meshes over a value lattice (exact and inexact in half precision) x all triangle subsets x UV/normal presence x six versions, every setter/getter pair on three base "
-        "shapes, boundary sizes 65535/65536; read back immediately and after save+reload within the quantisation derived from the storage format.",
+        "shapes, boundary sizes 65535/65536; read back immediately and after save+reload within the quantisation derived from the storage format; the file written after a setter call "
+        "must not depend on whether the model had been saved before the call (differential history oracle).",
    note="V <= 5 / 6; sizes above that only as boundary cases; byte-quantised attributes only fed values inside their representable range."),
  "C14": dict(engine="scenario enumeration", cat="exploration", ref="DESIGN.md 4 C14",
    technique="exhaustive enumeration of (shape, destination, clone count) scenarios with masked payload compare",
@@ -88,7 +94,7 @@ CHECKS = {
    note="Pointers that leave the cloned subtree only have to reach a block of the same type (root pointers: the destination's root)."),
  "C15": dict(engine="E3 fault enumeration", cat="fault_enumeration", ref="DESIGN.md 3.7, 4 C15",
    technique="exhaustive fault-placement enumeration (every reference field x corruption kinds, 1-3 simultaneous) executed under sanitizers with a watchdog",
-   text="Every reference field of every corpus file (offsets from the write-side reference hook) x {empty, count, count+1, huge, own index, ancestors, every in-range index / one per type}, "
+   text="Every reference field of every corpus file (offsets from the write-side reference hook) x {empty, count, count+1, huge, own index, ancestors, every in-range index / one per type + siblings of the type pointed to}, "
         "pairs and reduced triples on files <= 8 blocks; each placement: Load, query battery, copy, default Save, reload in a sanitised worker; hangs and stack exhaustion are attributed "
         "to the API entry point.",
    note="Quick: single faults, sample files <= 40 blocks, 13 version configurations for the synthesised corpus; a faulting placement is replayed alone before it is reported."),
@@ -100,7 +106,7 @@ CHECKS = {
  "C17": dict(engine="E2 label lists", cat="model_checking", ref="DESIGN.md 4 C17",
    technique="exhaustive enumeration of segmentation shapes x label lists x follow-up operations against a stable-sort reference model",
    text="All label lists over declared ids and -1 for T <= 4 / 5 triangles x 39 segmentation shapes x permuted numberings, set/get, every single-vertex deletion, save+reload; same for "
-        "partition assignment on skinned SK/SSE(/FO3) shapes; ranges contiguous, ordered, summing to T, triangles a permutation.",
+        "partition assignment on skinned SK/SSE(/FO3) shapes (also Set -> RemoveEmptyPartitions -> Get); ranges contiguous, ordered, summing to T, triangles a permutation.",
    note="Numberings: all permutations up to 3 / 4 ids, four fixed ones beyond; labels outside the declared ids are caller errors and not generated."),
  "C18": dict(engine="E4 small scope", cat="model_checking", ref="DESIGN.md 4 C18",
    technique="exhaustive small-scope enumeration against naive reference definitions under ASan/UBSan",
